@@ -74,7 +74,7 @@ def gen_flow(rng, tier):
         radius_sequence(rng, cases[-1])
     for c in cases:
         if not c["max_batches"]:
-            c["max_batches"] = 60 + 600 // c["drawsize"]
+            c["max_batches"] = 40 + 300 // c["drawsize"]
     return cases
 
 
@@ -87,7 +87,7 @@ def radius_sequence(rng, c):
         return
     c["radius_mode"] = rng.choice(["fixed", "worst", "worst", "explicit"])
     if c["radius_mode"] != "fixed":
-        c["npop"] = rng.choice([2, 3, 4])
+        c["npop"] = rng.choice([2, 2, 3])
         c["worst_idx"] = [rng.randrange(40) for _ in range(c["npop"])]
         rs = [rng.choice([0.6, 1.0, 1.5, 2.5, 3.5]) for _ in range(c["npop"])]
         if rng.random() < 0.5:
@@ -135,10 +135,16 @@ def gen_prims(rng, tier):
 
 def gen_ins(rng, tier):
     out = []
-    for i in range(2 if tier == "quick" else 10):
-        out.append({"seed": rng.randrange(1 << 30), "prior": ["corner", "uniform", "steps"][i % 3],
-                    "n": rng.choice([20, 40]), "iid": i % 2 == 1, "reparam": rng.choice(["logit", None]) if i else "logit",
-                    "draw_ns": [1, 7, 30], "max_batches": 50})
+    # the importance proposal works in the unit hypercube: the prior kinds include one that does not test the bounds itself
+    # (a constant-density style prior), and both reparameterisations (with None the flows can leave the hypercube)
+    combos = [("corner", "logit"), ("nobounds", None), ("uniform", None), ("steps", "logit"), ("nobounds", "logit"),
+              ("corner", None)]
+    for i in range(3 if tier == "quick" else 12):
+        prior, reparam = combos[i % len(combos)]
+        out.append({"seed": rng.randrange(1 << 30), "prior": prior,
+                    "n": rng.choice([20, 40]), "iid": i % 2 == 1, "reparam": reparam,
+                    "draw_ns": [1, 7, 30], "max_batches": 50,
+                    "from_flows": [[rng.choice([5, 40]), "weights"], [rng.choice([60, 200]), rng.choice(["weights", "counts"])]]})
     return out
 
 
@@ -463,6 +469,29 @@ def run(chk):
                 chk.nontriv((c, d["n"]))
             if all(i >= 0 for i in d["out"]):
                 insl.append(cT(cN(d["n"]), cL(cL(map(lit_cand, b)) for b in d["batches"]), cL(map(cN, d["out"]))))
+    # ---- draw_from_flows + the likelihood call that follows it in draw_final_samples -------------------------------------
+    ffl = []
+    for c, r in zip(job["ins"], res["ins"]):
+        for d in r.get("from_flows", []) if isinstance(r, dict) else []:
+            chk.evaluations += 1
+            chk.count(f"ins:draw_from_flows:{c['prior']}:{c['reparam']}")
+            rp = {"kind": "ins", "case": c}
+            if "error" in d:
+                chk.fail("C09:populate-raised", "ImportanceFlowProposal.draw_from_flows raised " + d["error"], rp)
+                continue
+            if "out" not in d:
+                continue
+            if d["n_outside_cube"] or any(not (x[3] and fin(x[4])) for x in d["cands"]):
+                chk.nontriv((c, "from_flows", d["n"]))
+            if not all(d["out_inb"]) or any((not fin(a)) or a != b for a, b in zip(d["out_logP"], d["out_logP_model"])):
+                chk.fail("C09:pool-out-of-bounds", "ImportanceFlowProposal.draw_from_flows returned a point outside the prior "
+                         f"bounds or with a log-prior different from the model's ({d['n_outside_cube']} candidates of the batch "
+                         "were outside the unit hypercube)", rp)
+            if d["n_lik_outside"]:
+                chk.fail("C09:lik-outside-support", f"after draw_from_flows the likelihood was evaluated on {d['n_lik_outside']} "
+                         f"of {d['lik_points']} points outside the prior support, e.g. {d['lik_outside'][:2]}", rp)
+            if all(i >= 0 for i in d["out"]):
+                ffl.append(cT(cL(map(lit_cand, d["cands"])), cL(map(cN, d["out"]))))
     # ---- radial samplers ----------------------------------------------------------------------------------------
     for c, r in zip(job["radial"], res["radial"]):
         chk.evaluations += 1
@@ -527,6 +556,7 @@ def run(chk):
         ("rej", "chk_rej", rejl, "RejectionProposal.populate: pool = model new_points ; rej_populate"),
         ("newp", "chk_newp", newl, "Model.new_point / AnalyticProposal.populate / populate_live_points = model new_points"),
         ("insdraw", "chk_insdraw", insl, "ImportanceFlowProposal.draw = model ins_draw"),
+        ("fromflows", "chk_fromflows", ffl, "ImportanceFlowProposal.draw_from_flows = model ins_from_flows"),
         ("draws", "chk_draws", drawl, "rows handed out by draw and the populated flag = model draws on the recorded permutation"),
         ("lik", "chk_same", same, "the batch handed to the user's log_likelihood is exactly the pool, in order"),
     ]
